@@ -14,15 +14,16 @@ import (
 
 // ---- C19: BinaryReader / BinaryWriter / BitmapReader / BitmapWriter -------------------------
 
-var errSrc = errors.New("source failed")
+var c19ErrSrc = errors.New("source failed")
 
-// schedSrc is the underlying source of the stream backends: data delivered according to a read
+// c19SchedSrc is the underlying source of the stream backends: data delivered according to a read
 // schedule (Binary/Model.v src_read / src_readat).
-//   sched  upper bound on the bytes delivered by the next Read calls that find data (one entry per
-//          call; exhausted => fill the caller's buffer); an entry 0 is a (0, nil) read
-//   ewl    the final error is delivered together with the last bytes
-//   fe     the final error (io.EOF, or errSrc for a failing source)
-type schedSrc struct {
+//
+//	sched  upper bound on the bytes delivered by the next Read calls that find data (one entry per
+//	       call; exhausted => fill the caller's buffer); an entry 0 is a (0, nil) read
+//	ewl    the final error is delivered together with the last bytes
+//	fe     the final error (io.EOF, or c19ErrSrc for a failing source)
+type c19SchedSrc struct {
 	data  []byte
 	sched []int
 	ewl   bool
@@ -30,7 +31,7 @@ type schedSrc struct {
 	pos   int64 // sequential / seek position
 }
 
-func (s *schedSrc) read(p []byte) (int, error) {
+func (s *c19SchedSrc) read(p []byte) (int, error) {
 	var rem []byte
 	if s.pos < int64(len(s.data)) {
 		rem = s.data[s.pos:]
@@ -61,7 +62,7 @@ func (s *schedSrc) read(p []byte) (int, error) {
 	return m, nil
 }
 
-func (s *schedSrc) seek(off int64, whence int) (int64, error) {
+func (s *c19SchedSrc) seek(off int64, whence int) (int64, error) {
 	var abs int64
 	switch whence {
 	case io.SeekStart:
@@ -71,19 +72,19 @@ func (s *schedSrc) seek(off int64, whence int) (int64, error) {
 	case io.SeekEnd:
 		abs = int64(len(s.data)) + off
 	default:
-		return 0, errSrc
+		return 0, c19ErrSrc
 	}
 	if abs < 0 {
-		return 0, errSrc
+		return 0, c19ErrSrc
 	}
 	s.pos = abs
 	return abs, nil
 }
 
-func (s *schedSrc) readAt(b []byte, off int64) (int, error) {
+func (s *c19SchedSrc) readAt(b []byte, off int64) (int, error) {
 	n := len(b)
 	if off < 0 {
-		return 0, errSrc
+		return 0, c19ErrSrc
 	}
 	if int64(len(s.data)) <= off {
 		return 0, s.fe
@@ -117,28 +118,28 @@ func (s *schedSrc) readAt(b []byte, off int64) (int, error) {
 }
 
 // the three capability sets NewBinaryReaderReader distinguishes
-type plainReader struct{ s *schedSrc }
+type c19PlainReader struct{ s *c19SchedSrc }
 
-func (r plainReader) Read(p []byte) (int, error) { return r.s.read(p) }
+func (r c19PlainReader) Read(p []byte) (int, error) { return r.s.read(p) }
 
-type seekReader struct{ s *schedSrc }
+type c19SeekReader struct{ s *c19SchedSrc }
 
-func (r seekReader) Read(p []byte) (int, error)         { return r.s.read(p) }
-func (r seekReader) Seek(o int64, w int) (int64, error) { return r.s.seek(o, w) }
+func (r c19SeekReader) Read(p []byte) (int, error)         { return r.s.read(p) }
+func (r c19SeekReader) Seek(o int64, w int) (int64, error) { return r.s.seek(o, w) }
 
-type atReader struct{ s *schedSrc }
+type c19AtReader struct{ s *c19SchedSrc }
 
-func (r atReader) Read(p []byte) (int, error)            { return r.s.read(p) }
-func (r atReader) ReadAt(p []byte, o int64) (int, error) { return r.s.readAt(p, o) }
+func (r c19AtReader) Read(p []byte) (int, error)            { return r.s.read(p) }
+func (r c19AtReader) ReadAt(p []byte, o int64) (int, error) { return r.s.readAt(p, o) }
 
-func binErrKind(e error) int64 {
+func c19BinErrKind(e error) int64 {
 	if e == nil {
 		return 0
 	}
 	if e == io.EOF {
 		return 1
 	}
-	if e == errSrc {
+	if e == c19ErrSrc {
 		return 5
 	}
 	m := e.Error()
@@ -160,76 +161,76 @@ func binErrKind(e error) int64 {
 }
 
 const (
-	bkBytes = iota
-	bkMmap
-	bkFile
-	bkPlain
-	bkSeeker
-	bkReaderAt
-	bkHasBytes
+	c19BkBytes = iota
+	c19BkMmap
+	c19BkFile
+	c19BkPlain
+	c19BkSeeker
+	c19BkReaderAt
+	c19BkHasBytes
 )
 
-var bkNames = []string{"bytes", "mmap", "file", "reader", "readseeker", "readerat", "hasbytes"}
+var c19BkNames = []string{"bytes", "mmap", "file", "reader", "readseeker", "readerat", "hasbytes"}
 
-// backendName names the backend NewBinaryReaderReader picks (for histograms and finding keys).
-func backendName(kind int, n int64) string {
+// c19BackendName names the backend NewBinaryReaderReader picks (for histograms and finding keys).
+func c19BackendName(kind int, n int64) string {
 	switch kind {
-	case bkPlain:
+	case c19BkPlain:
 		if n < 0 {
 			return "readall"
 		}
-	case bkReaderAt:
+	case c19BkReaderAt:
 		if n < 0 {
 			return "readall"
 		} else if n == 0 {
 			return "reader"
 		}
 	}
-	return bkNames[kind]
+	return c19BkNames[kind]
 }
 
 const (
-	roSeek = iota
-	roRead
-	roReadAt
-	roReadBytes
-	roReadByte
-	roU8
-	roU16
-	roU24
-	roU32
-	roU64
-	roI8
-	roI16
-	roI24
-	roI32
-	roI64
-	roPos
-	roLen
-	roErr
-	roOrder
-	roClone
-	roSwap
-	roClose
-	roInPageCache
-	roReadString
-	roCount
+	c19RoSeek = iota
+	c19RoRead
+	c19RoReadAt
+	c19RoReadBytes
+	c19RoReadByte
+	c19RoU8
+	c19RoU16
+	c19RoU24
+	c19RoU32
+	c19RoU64
+	c19RoI8
+	c19RoI16
+	c19RoI24
+	c19RoI32
+	c19RoI64
+	c19RoPos
+	c19RoLen
+	c19RoErr
+	c19RoOrder
+	c19RoClone
+	c19RoSwap
+	c19RoClose
+	c19RoInPageCache
+	c19RoReadString
+	c19RoCount
 )
 
-var roNames = []string{"Seek", "Read", "ReadAt", "ReadBytes", "ReadByte", "U8", "U16", "U24", "U32", "U64", "I8", "I16", "I24", "I32", "I64", "Pos", "Len", "Err", "Order", "Clone", "Swap", "Close", "InPageCache", "ReadString"}
+var c19RoNames = []string{"Seek", "Read", "ReadAt", "ReadBytes", "ReadByte", "U8", "U16", "U24", "U32", "U64", "I8", "I16", "I24", "I32", "I64", "Pos", "Len", "Err", "Order", "Clone", "Swap", "Close", "InPageCache", "ReadString"}
 
-// openBackend builds the real reader for a case; cleanup removes temp files.
-func openBackend(kind int, n int64, data []byte, sched []int, ewl, failing bool) (r *parse.BinaryReader, cleanup func(), err error) {
+// c19OpenBackend builds the real reader for a case; cleanup removes temp files.
+func c19OpenBackend(kind int, n int64, data []byte, sched []int, ewl, failing bool) (r *parse.BinaryReader, cleanup func(), err error) {
 	cleanup = func() {}
 	fe := io.EOF
 	if failing {
-		fe = errSrc
+		fe = c19ErrSrc
 	}
-	src := &schedSrc{data: data, sched: append([]int{}, sched...), ewl: ewl, fe: fe}
+	src := &c19SchedSrc{data: data, sched: append([]int{}, sched...), ewl: ewl, fe: fe}
 	switch kind {
-	case bkBytes:
+	case c19BkBytes:
 		return parse.NewBinaryReaderBytes(data), cleanup, nil
-	case bkMmap, bkFile:
+	case c19BkMmap, c19BkFile:
 		dir, e := os.MkdirTemp("", "verif-c19-")
 		if e != nil {
 			panic(e)
@@ -245,7 +246,7 @@ func openBackend(kind int, n int64, data []byte, sched []int, ewl, failing bool)
 			}
 			os.RemoveAll(dir)
 		}
-		if kind == bkMmap {
+		if kind == c19BkMmap {
 			if e := os.WriteFile(path, data, 0o600); e != nil {
 				panic(e)
 			}
@@ -279,19 +280,19 @@ func openBackend(kind int, n int64, data []byte, sched []int, ewl, failing bool)
 			}
 		}
 		return r, cleanup, err
-	case bkPlain:
-		r, err = parse.NewBinaryReaderReader(plainReader{src}, n)
-	case bkSeeker:
-		r, err = parse.NewBinaryReaderReader(seekReader{src}, n)
-	case bkReaderAt:
-		r, err = parse.NewBinaryReaderReader(atReader{src}, n)
+	case c19BkPlain:
+		r, err = parse.NewBinaryReaderReader(c19PlainReader{src}, n)
+	case c19BkSeeker:
+		r, err = parse.NewBinaryReaderReader(c19SeekReader{src}, n)
+	case c19BkReaderAt:
+		r, err = parse.NewBinaryReaderReader(c19AtReader{src}, n)
 	default:
 		r, err = parse.NewBinaryReaderReader(bytes.NewBuffer(data), n)
 	}
 	return r, cleanup, err
 }
 
-func bytesObs(b []byte) []int64 {
+func c19BytesObs(b []byte) []int64 {
 	out := make([]int64, len(b))
 	for i, c := range b {
 		out[i] = int64(c)
@@ -299,83 +300,83 @@ func bytesObs(b []byte) []int64 {
 	return out
 }
 
-func b2i(b bool) int64 {
+func c19B2i(b bool) int64 {
 	if b {
 		return 1
 	}
 	return 0
 }
 
-// doReadOp applies one operation; cur/oth are the reader and its clone.
-func doReadOp(cur, oth **parse.BinaryReader, code int, a, b int64) (obs []int64) {
+// c19DoReadOp applies one operation; cur/oth are the reader and its clone.
+func c19DoReadOp(cur, oth **parse.BinaryReader, code int, a, b int64) (obs []int64) {
 	r := *cur
 	switch code {
-	case roSeek:
+	case c19RoSeek:
 		p, e := r.Seek(a, int(b))
-		obs = []int64{p, binErrKind(e)}
-	case roRead:
+		obs = []int64{p, c19BinErrKind(e)}
+	case c19RoRead:
 		buf := make([]byte, a)
 		n, e := r.Read(buf)
-		obs = append([]int64{int64(n), binErrKind(e)}, bytesObs(buf[:n])...)
-	case roReadAt:
+		obs = append([]int64{int64(n), c19BinErrKind(e)}, c19BytesObs(buf[:n])...)
+	case c19RoReadAt:
 		buf := make([]byte, a)
 		n, e := r.ReadAt(buf, b)
-		obs = append([]int64{int64(n), binErrKind(e)}, bytesObs(buf[:n])...)
-	case roReadBytes:
+		obs = append([]int64{int64(n), c19BinErrKind(e)}, c19BytesObs(buf[:n])...)
+	case c19RoReadBytes:
 		d := r.ReadBytes(a)
-		obs = append([]int64{b2i(d == nil)}, bytesObs(d)...)
-	case roReadString:
+		obs = append([]int64{c19B2i(d == nil)}, c19BytesObs(d)...)
+	case c19RoReadString:
 		s := r.ReadString(a)
-		obs = append([]int64{0}, bytesObs([]byte(s))...)
-	case roReadByte:
+		obs = append([]int64{0}, c19BytesObs([]byte(s))...)
+	case c19RoReadByte:
 		c, e := r.ReadByte()
-		obs = []int64{int64(c), binErrKind(e)}
-	case roU8:
+		obs = []int64{int64(c), c19BinErrKind(e)}
+	case c19RoU8:
 		obs = []int64{int64(r.ReadUint8())}
-	case roU16:
+	case c19RoU16:
 		obs = []int64{int64(r.ReadUint16())}
-	case roU24:
+	case c19RoU24:
 		obs = []int64{int64(r.ReadUint24())}
-	case roU32:
+	case c19RoU32:
 		obs = []int64{int64(r.ReadUint32())}
-	case roU64:
+	case c19RoU64:
 		v := r.ReadUint64()
 		obs = []int64{int64(v >> 32), int64(v & 0xFFFFFFFF)}
-	case roI8:
+	case c19RoI8:
 		obs = []int64{int64(r.ReadInt8())}
-	case roI16:
+	case c19RoI16:
 		obs = []int64{int64(r.ReadInt16())}
-	case roI24:
+	case c19RoI24:
 		obs = []int64{int64(r.ReadInt24())}
-	case roI32:
+	case c19RoI32:
 		obs = []int64{int64(r.ReadInt32())}
-	case roI64:
+	case c19RoI64:
 		obs = []int64{r.ReadInt64()}
-	case roPos:
+	case c19RoPos:
 		obs = []int64{r.Pos()}
-	case roLen:
+	case c19RoLen:
 		obs = []int64{r.Len()}
-	case roErr:
-		obs = []int64{binErrKind(r.Err())}
-	case roOrder:
+	case c19RoErr:
+		obs = []int64{c19BinErrKind(r.Err())}
+	case c19RoOrder:
 		if a != 0 {
 			r.ByteOrder = binary.LittleEndian
 		} else {
 			r.ByteOrder = binary.BigEndian
 		}
-	case roClone:
+	case c19RoClone:
 		*oth = r.Clone()
-	case roSwap:
+	case c19RoSwap:
 		*cur, *oth = *oth, *cur
-	case roClose:
-		obs = []int64{binErrKind(r.Close())}
-	case roInPageCache:
-		obs = []int64{b2i(r.InPageCache(a, b))}
+	case c19RoClose:
+		obs = []int64{c19BinErrKind(r.Close())}
+	case c19RoInPageCache:
+		obs = []int64{c19B2i(r.InPageCache(a, b))}
 	}
 	return obs
 }
 
-func parseBinread(a []int64) (kind int, n int64, ewl, failing bool, data []byte, sched []int, ops []int64) {
+func c19ParseBinread(a []int64) (kind int, n int64, ewl, failing bool, data []byte, sched []int, ops []int64) {
 	kind, n, ewl, failing = int(a[0]), a[1], a[2] != 0, a[3] != 0
 	dv, rest := takeList(a[4:])
 	sv, ops := takeList(rest)
@@ -386,9 +387,9 @@ func parseBinread(a []int64) (kind int, n int64, ewl, failing bool, data []byte,
 	return
 }
 
-func binreadImpl(c Case) []int64 {
-	kind, n, ewl, failing, data, sched, ops := parseBinread(c.Args)
-	r, cleanup, err := openBackend(kind, n, data, sched, ewl, failing)
+func c19BinreadImpl(c Case) []int64 {
+	kind, n, ewl, failing, data, sched, ops := c19ParseBinread(c.Args)
+	r, cleanup, err := c19OpenBackend(kind, n, data, sched, ewl, failing)
 	defer cleanup()
 	if err != nil || r == nil {
 		return []int64{-3}
@@ -398,7 +399,7 @@ func binreadImpl(c Case) []int64 {
 	var out []int64
 	for i := 0; i+2 < len(ops); i += 3 {
 		var obs []int64
-		if p := catch(func() { obs = doReadOp(&cur, &oth, int(ops[i]), ops[i+1], ops[i+2]) }); p != nil {
+		if p := catch(func() { obs = c19DoReadOp(&cur, &oth, int(ops[i]), ops[i+1], ops[i+2]) }); p != nil {
 			return append(out, -1)
 		}
 		out = append(out, int64(len(obs)))
@@ -407,25 +408,25 @@ func binreadImpl(c Case) []int64 {
 	return append(out, -2)
 }
 
-func mkBinread(kind int, n int64, ewl, failing bool, data []byte, sched []int, ops []int64) Case {
-	args := []int64{int64(kind), n, b2i(ewl), b2i(failing)}
+func c19MkBinread(kind int, n int64, ewl, failing bool, data []byte, sched []int, ops []int64) Case {
+	args := []int64{int64(kind), n, c19B2i(ewl), c19B2i(failing)}
 	args = append(args, bytesToArgs(data)...)
 	args = append(args, int64(len(sched)))
 	for _, s := range sched {
 		args = append(args, int64(s))
 	}
 	args = append(args, ops...)
-	return Case{Fn: "binread", Args: args, Note: describeBinread(args)}
+	return Case{Fn: "binread", Args: args, Note: c19DescribeBinread(args)}
 }
 
-func describeBinread(a []int64) string {
-	kind, n, ewl, failing, data, sched, ops := parseBinread(a)
-	s := fmt.Sprintf("%s n=%d ewl=%v failing=%v data=%x sched=%v ops=", backendName(kind, n), n, ewl, failing, data, sched)
+func c19DescribeBinread(a []int64) string {
+	kind, n, ewl, failing, data, sched, ops := c19ParseBinread(a)
+	s := fmt.Sprintf("%s n=%d ewl=%v failing=%v data=%x sched=%v ops=", c19BackendName(kind, n), n, ewl, failing, data, sched)
 	for i := 0; i+2 < len(ops); i += 3 {
 		code := int(ops[i])
 		name := "?"
-		if code >= 0 && code < len(roNames) {
-			name = roNames[code]
+		if code >= 0 && code < len(c19RoNames) {
+			name = c19RoNames[code]
 		}
 		s += fmt.Sprintf("%s(%d,%d) ", name, ops[i+1], ops[i+2])
 	}
@@ -434,34 +435,34 @@ func describeBinread(a []int64) string {
 
 // ---- typed values ----------------------------------------------------------------------------
 
-type tval struct {
+type c19Tval struct {
 	typ int // 0..4 u8,u16,u24,u32,u64 ; 5..9 i8..i64 ; 10 bytes
 	u   uint64
 	i   int64
 	b   []byte
 }
 
-var tvalWidth = []int{1, 2, 3, 4, 8, 1, 2, 3, 4, 8}
+var c19TvalWidth = []int{1, 2, 3, 4, 8, 1, 2, 3, 4, 8}
 
-func (v tval) size() int {
+func (v c19Tval) size() int {
 	if v.typ == 10 {
 		return len(v.b)
 	} else if v.typ == 11 { // ReadByte (oracle only)
 		return 1
 	}
-	return tvalWidth[v.typ]
+	return c19TvalWidth[v.typ]
 }
 
-func (v tval) readOp() (int64, int64) {
+func (v c19Tval) readOp() (int64, int64) {
 	if v.typ == 10 {
-		return roReadBytes, int64(len(v.b))
+		return c19RoReadBytes, int64(len(v.b))
 	}
-	return int64(roU8 + v.typ), 0
+	return int64(c19RoU8 + v.typ), 0
 }
 
-func randTval(r *Rng) tval {
+func c19RandTval(r *Rng) c19Tval {
 	t := r.Intn(11)
-	v := tval{typ: t}
+	v := c19Tval{typ: t}
 	bits := []uint{8, 16, 24, 32, 64, 8, 16, 24, 32, 64}
 	if t == 10 {
 		n := r.Intn(6)
@@ -494,7 +495,7 @@ func randTval(r *Rng) tval {
 	return v
 }
 
-func writeTval(w *parse.BinaryWriter, v tval) {
+func c19WriteTval(w *parse.BinaryWriter, v c19Tval) {
 	switch v.typ {
 	case 0:
 		w.WriteUint8(uint8(v.u))
@@ -521,8 +522,8 @@ func writeTval(w *parse.BinaryWriter, v tval) {
 	}
 }
 
-// refEncode: the reference encoding, written with encoding/binary only.
-func refEncode(little bool, v tval) []byte {
+// c19RefEncode: the reference encoding, written with encoding/binary only.
+func c19RefEncode(little bool, v c19Tval) []byte {
 	var bo binary.ByteOrder = binary.BigEndian
 	if little {
 		bo = binary.LittleEndian
@@ -557,11 +558,11 @@ func refEncode(little bool, v tval) []byte {
 	return v.b
 }
 
-// expected observation of reading v back (as doReadOp encodes it)
-func (v tval) wantObs() []int64 {
+// expected observation of reading v back (as c19DoReadOp encodes it)
+func (v c19Tval) wantObs() []int64 {
 	switch {
 	case v.typ == 10:
-		return bytesObs(v.b)
+		return c19BytesObs(v.b)
 	case v.typ == 4:
 		return []int64{int64(v.u >> 32), int64(v.u & 0xFFFFFFFF)}
 	case v.typ < 5:
@@ -572,7 +573,7 @@ func (v tval) wantObs() []int64 {
 
 // ---- generators for the reader model -------------------------------------------------------------
 
-func randSched(r *Rng, n int) []int {
+func c19RandSched(r *Rng, n int) []int {
 	switch r.Intn(5) {
 	case 0:
 		return nil
@@ -596,8 +597,8 @@ func randSched(r *Rng, n int) []int {
 	return s
 }
 
-// randKindN picks a backend and the n handed to the constructor (claimed size).
-func randKindN(r *Rng, dataLen int) (int, int64) {
+// c19RandKindN picks a backend and the n handed to the constructor (claimed size).
+func c19RandKindN(r *Rng, dataLen int) (int, int64) {
 	kind := r.Intn(7)
 	n := int64(dataLen)
 	switch r.Intn(6) {
@@ -610,19 +611,19 @@ func randKindN(r *Rng, dataLen int) (int, int64) {
 			n = 0
 		}
 	}
-	if kind == bkFile && n < 0 {
+	if kind == c19BkFile && n < 0 {
 		n = int64(dataLen)
 	}
 	return kind, n
 }
 
-func randReadOps(r *Rng, dataLen int, k int, wild bool) []int64 {
+func c19RandReadOps(r *Rng, dataLen int, k int, wild bool) []int64 {
 	var ops []int64
 	for j := 0; j < k; j++ {
-		code := r.Intn(roCount)
+		code := r.Intn(c19RoCount)
 		var a, b int64
 		switch code {
-		case roSeek:
+		case c19RoSeek:
 			b = int64(r.Intn(3))
 			a = int64(r.Intn(dataLen+3)) - 1
 			if b == 2 {
@@ -634,28 +635,28 @@ func randReadOps(r *Rng, dataLen int, k int, wild bool) []int64 {
 				b = int64(r.Intn(6) - 1)
 				a = []int64{0, 1, -1, 1 << 62, -(1 << 62), 9223372036854775807, -9223372036854775808}[r.Intn(7)]
 			}
-		case roRead, roReadBytes, roReadString:
+		case c19RoRead, c19RoReadBytes, c19RoReadString:
 			a = int64(r.Intn(6))
 			if r.Chance(1, 8) {
 				a = int64(r.Intn(dataLen + 3))
 			}
-			if wild && code != roRead && r.Chance(1, 6) {
+			if wild && code != c19RoRead && r.Chance(1, 6) {
 				a = -int64(r.Intn(3)) - 1
 			}
-		case roReadAt:
+		case c19RoReadAt:
 			a = int64(r.Intn(6))
 			b = int64(r.Intn(dataLen + 3))
 			if wild && r.Chance(1, 5) {
 				b = -int64(r.Intn(3)) - 1
 			}
-		case roOrder:
+		case c19RoOrder:
 			a = int64(r.Intn(2))
-		case roInPageCache:
+		case c19RoInPageCache:
 			a = int64(r.Intn(3*4096)) - 4096
 			b = int64(r.Intn(3*4096)) - 4096
-		case roClose:
+		case c19RoClose:
 			if !r.Chance(1, 4) {
-				code = roErr
+				code = c19RoErr
 			}
 		}
 		ops = append(ops, int64(code), a, b)
@@ -663,56 +664,56 @@ func randReadOps(r *Rng, dataLen int, k int, wild bool) []int64 {
 	return ops
 }
 
-// genRoundTrip: a written program read back (with optional truncation / seeks), on a random backend.
-func genRoundTrip(r *Rng, emit func(Case)) {
+// c19GenRoundTrip: a written program read back (with optional truncation / seeks), on a random backend.
+func c19GenRoundTrip(r *Rng, emit func(Case)) {
 	little := r.Bool()
 	w := parse.NewBinaryWriter(nil)
 	if little {
 		w.ByteOrder = binary.LittleEndian
 	}
 	nv := 1 + r.Intn(8)
-	vals := make([]tval, nv)
+	vals := make([]c19Tval, nv)
 	for i := range vals {
-		vals[i] = randTval(r)
-		writeTval(w, vals[i])
+		vals[i] = c19RandTval(r)
+		c19WriteTval(w, vals[i])
 	}
 	full := w.Bytes()
 	data := full
 	if r.Chance(1, 3) {
 		data = full[:r.Intn(len(full)+1)]
 	}
-	kind, n := randKindN(r, len(full))
+	kind, n := c19RandKindN(r, len(full))
 	if r.Chance(2, 3) {
 		n = int64(len(full))
 	}
-	ops := []int64{roOrder, b2i(little), 0}
+	ops := []int64{c19RoOrder, c19B2i(little), 0}
 	for _, v := range vals {
 		c, a := v.readOp()
 		ops = append(ops, c, a, 0)
 		if r.Chance(1, 4) {
-			ops = append(ops, roErr, 0, 0, roPos, 0, 0, roLen, 0, 0)
+			ops = append(ops, c19RoErr, 0, 0, c19RoPos, 0, 0, c19RoLen, 0, 0)
 		}
 		if r.Chance(1, 10) {
-			ops = append(ops, randReadOps(r, len(full), 1, false)...)
+			ops = append(ops, c19RandReadOps(r, len(full), 1, false)...)
 		}
 	}
 	// run past the end
 	for j := r.Intn(4); j > 0; j-- {
-		ops = append(ops, int64(roReadBytes+r.Intn(12)), int64(r.Intn(4)), 0)
+		ops = append(ops, int64(c19RoReadBytes+r.Intn(12)), int64(r.Intn(4)), 0)
 	}
-	ops = append(ops, roErr, 0, 0, roPos, 0, 0, roLen, 0, 0)
-	emit(mkBinread(kind, n, r.Chance(1, 5), r.Chance(1, 8), append([]byte{}, data...), randSched(r, len(data)), ops))
+	ops = append(ops, c19RoErr, 0, 0, c19RoPos, 0, 0, c19RoLen, 0, 0)
+	emit(c19MkBinread(kind, n, r.Chance(1, 5), r.Chance(1, 8), append([]byte{}, data...), c19RandSched(r, len(data)), ops))
 }
 
-var smallOps = [][3]int64{
-	{roU8, 0, 0}, {roI8, 0, 0}, {roReadByte, 0, 0}, {roU16, 0, 0}, {roI24, 0, 0}, {roU32, 0, 0},
-	{roReadBytes, 0, 0}, {roReadBytes, 2, 0}, {roReadString, 3, 0}, {roRead, 0, 0}, {roRead, 2, 0},
-	{roReadAt, 2, 1}, {roReadAt, 1, 0}, {roSeek, 1, 0}, {roSeek, -1, 2}, {roSeek, 1, 1}, {roSeek, 0, 2},
-	{roClone, 0, 0}, {roSwap, 0, 0}, {roClose, 0, 0}, {roOrder, 1, 0},
+var c19SmallOps = [][3]int64{
+	{c19RoU8, 0, 0}, {c19RoI8, 0, 0}, {c19RoReadByte, 0, 0}, {c19RoU16, 0, 0}, {c19RoI24, 0, 0}, {c19RoU32, 0, 0},
+	{c19RoReadBytes, 0, 0}, {c19RoReadBytes, 2, 0}, {c19RoReadString, 3, 0}, {c19RoRead, 0, 0}, {c19RoRead, 2, 0},
+	{c19RoReadAt, 2, 1}, {c19RoReadAt, 1, 0}, {c19RoSeek, 1, 0}, {c19RoSeek, -1, 2}, {c19RoSeek, 1, 1}, {c19RoSeek, 0, 2},
+	{c19RoClone, 0, 0}, {c19RoSwap, 0, 0}, {c19RoClose, 0, 0}, {c19RoOrder, 1, 0},
 }
 
-func genBinread(r *Rng, tier string, emit func(Case)) {
-	tail := []int64{roErr, 0, 0, roPos, 0, 0, roLen, 0, 0}
+func c19GenBinread(r *Rng, tier string, emit func(Case)) {
+	tail := []int64{c19RoErr, 0, 0, c19RoPos, 0, 0, c19RoLen, 0, 0}
 	pattern := []byte{0x81, 0x02, 0xF3, 0x04}
 	type cfg struct {
 		kind  int
@@ -725,12 +726,12 @@ func genBinread(r *Rng, tier string, emit func(Case)) {
 	zero := func(l int) int64 { return 0 }
 	more := func(l int) int64 { return int64(l + 1) }
 	cfgs := []cfg{
-		{bkBytes, exact, nil, false}, {bkMmap, exact, nil, false}, {bkFile, exact, nil, false}, {bkFile, more, nil, false},
-		{bkPlain, exact, nil, false}, {bkPlain, exact, []int{1, 1, 1, 1, 1}, false}, {bkPlain, exact, []int{1, 0, 1}, false},
-		{bkPlain, exact, nil, true}, {bkPlain, neg, []int{1, 0, 2}, true}, {bkPlain, more, nil, false},
-		{bkSeeker, exact, nil, false}, {bkSeeker, exact, []int{1, 1, 1, 1, 1}, false}, {bkSeeker, neg, nil, true}, {bkSeeker, exact, []int{0}, false},
-		{bkReaderAt, exact, nil, false}, {bkReaderAt, exact, nil, true}, {bkReaderAt, exact, []int{1}, false}, {bkReaderAt, zero, nil, false}, {bkReaderAt, neg, nil, false},
-		{bkHasBytes, exact, nil, false},
+		{c19BkBytes, exact, nil, false}, {c19BkMmap, exact, nil, false}, {c19BkFile, exact, nil, false}, {c19BkFile, more, nil, false},
+		{c19BkPlain, exact, nil, false}, {c19BkPlain, exact, []int{1, 1, 1, 1, 1}, false}, {c19BkPlain, exact, []int{1, 0, 1}, false},
+		{c19BkPlain, exact, nil, true}, {c19BkPlain, neg, []int{1, 0, 2}, true}, {c19BkPlain, more, nil, false},
+		{c19BkSeeker, exact, nil, false}, {c19BkSeeker, exact, []int{1, 1, 1, 1, 1}, false}, {c19BkSeeker, neg, nil, true}, {c19BkSeeker, exact, []int{0}, false},
+		{c19BkReaderAt, exact, nil, false}, {c19BkReaderAt, exact, nil, true}, {c19BkReaderAt, exact, []int{1}, false}, {c19BkReaderAt, zero, nil, false}, {c19BkReaderAt, neg, nil, false},
+		{c19BkHasBytes, exact, nil, false},
 	}
 	// (ii) exhaustive small scope: every configuration x data length 0..4 x every op sequence of length <= 2
 	for _, c := range cfgs {
@@ -738,15 +739,15 @@ func genBinread(r *Rng, tier string, emit func(Case)) {
 			data := pattern[:l]
 			var seqs [][]int64
 			seqs = append(seqs, nil)
-			for _, o1 := range smallOps {
+			for _, o1 := range c19SmallOps {
 				seqs = append(seqs, o1[:])
-				for _, o2 := range smallOps {
+				for _, o2 := range c19SmallOps {
 					seqs = append(seqs, append(append([]int64{}, o1[:]...), o2[:]...))
 				}
 			}
 			for _, s := range seqs {
 				ops := append(append([]int64{}, s...), tail...)
-				emit(mkBinread(c.kind, c.n(l), c.ewl, false, data, c.sched, ops))
+				emit(c19MkBinread(c.kind, c.n(l), c.ewl, false, data, c.sched, ops))
 			}
 		}
 	}
@@ -758,23 +759,77 @@ func genBinread(r *Rng, tier string, emit func(Case)) {
 			if little {
 				w.ByteOrder = binary.LittleEndian
 			}
-			ops := []int64{roOrder, b2i(little), 0}
+			ops := []int64{c19RoOrder, c19B2i(little), 0}
 			for k := 0; k < 4; k++ {
-				v := randTval(r)
-				writeTval(w, v)
+				v := c19RandTval(r)
+				c19WriteTval(w, v)
 				code, a := v.readOp()
-				ops = append(ops, code, a, 0, roErr, 0, 0)
+				ops = append(ops, code, a, 0, c19RoErr, 0, 0)
 			}
-			ops = append(ops, roU16, 0, 0)
+			ops = append(ops, c19RoU16, 0, 0)
 			ops = append(ops, tail...)
 			full := w.Bytes()
 			for t := 0; t <= len(full); t++ {
 				n := c.n(len(full))
-				if c.kind == bkFile {
+				if c.kind == c19BkFile {
 					n = int64(len(full))
 				}
-				emit(mkBinread(c.kind, n, c.ewl, false, append([]byte{}, full[:t]...), c.sched, ops))
+				emit(c19MkBinread(c.kind, n, c.ewl, false, append([]byte{}, full[:t]...), c.sched, ops))
 			}
+		}
+	}
+	// fixed 8-byte pattern decoded by every typed read in both byte orders, at every offset, on every configuration
+	pat8 := []byte{0x81, 0x02, 0xF3, 0x04, 0x95, 0x06, 0xE7, 0x08, 0x79}
+	for _, c := range cfgs {
+		for code := int64(c19RoU8); code <= c19RoI64; code++ {
+			for o := int64(0); o < 2; o++ {
+				for off := int64(0); off < 2; off++ {
+					ops := []int64{c19RoOrder, o, 0, c19RoReadBytes, off, 0, code, 0, 0}
+					ops = append(ops, tail...)
+					emit(c19MkBinread(c.kind, c.n(len(pat8)), c.ewl, false, pat8, c.sched, ops))
+				}
+			}
+		}
+	}
+	// Clone/Swap programs: byte order, position and error are copied, the backend is shared
+	for i := 0; i < 600; i++ {
+		l := 4 + r.Intn(12)
+		data := make([]byte, l)
+		for j := range data {
+			data[j] = byte(r.U64())
+		}
+		kind, nn := c19RandKindN(r, l)
+		if i%3 != 0 {
+			nn = int64(l)
+		}
+		ops := []int64{c19RoOrder, int64(r.Intn(2)), 0}
+		for k := 0; k < 3+r.Intn(6); k++ {
+			switch r.Intn(6) {
+			case 0:
+				ops = append(ops, c19RoClone, 0, 0)
+			case 1:
+				ops = append(ops, c19RoSwap, 0, 0)
+			case 2:
+				ops = append(ops, c19RoOrder, int64(r.Intn(2)), 0)
+			case 3:
+				ops = append(ops, c19RoSeek, int64(r.Intn(l+1)), 0)
+			default:
+				ops = append(ops, int64(c19RoU8+r.Intn(10)), 0, 0, c19RoPos, 0, 0)
+			}
+		}
+		ops = append(ops, c19RoSwap, 0, 0, c19RoU16, 0, 0, c19RoErr, 0, 0, c19RoPos, 0, 0, c19RoSwap, 0, 0)
+		ops = append(ops, tail...)
+		emit(c19MkBinread(kind, nn, false, false, data, c19RandSched(r, l), ops))
+	}
+	// InPageCache around page boundaries (PageSize = 4096)
+	big := make([]byte, 9000)
+	for j := range big {
+		big[j] = byte(j * 7)
+	}
+	for _, pos := range []int64{0, 1, 4095, 4096, 4097, 8191, 8192, 9000} {
+		for _, ab := range [][2]int64{{0, 0}, {0, 4095}, {4095, 4096}, {4096, 8191}, {4096, 8192}, {8192, 8999}, {-1, 0}, {-4096, -1}, {pos, pos}, {pos - 1, pos + 1}} {
+			ops := []int64{c19RoSeek, pos, 0, c19RoInPageCache, ab[0], ab[1], c19RoU16, 0, 0, c19RoInPageCache, ab[0], ab[1]}
+			emit(c19MkBinread(c19BkBytes, int64(len(big)), false, false, big, nil, append(ops, tail...)))
 		}
 	}
 	// (iii) structured + malformed random streams
@@ -784,7 +839,7 @@ func genBinread(r *Rng, tier string, emit func(Case)) {
 	}
 	for i := 0; i < n; i++ {
 		if i%2 == 0 {
-			genRoundTrip(r, emit)
+			c19GenRoundTrip(r, emit)
 			continue
 		}
 		l := r.Intn(12)
@@ -792,40 +847,40 @@ func genBinread(r *Rng, tier string, emit func(Case)) {
 		for j := range data {
 			data[j] = byte(r.U64())
 		}
-		kind, nn := randKindN(r, l)
-		ops := randReadOps(r, l, 1+r.Intn(10), i%4 == 1)
+		kind, nn := c19RandKindN(r, l)
+		ops := c19RandReadOps(r, l, 1+r.Intn(10), i%4 == 1)
 		ops = append(ops, tail...)
-		emit(mkBinread(kind, nn, r.Chance(1, 4), r.Chance(1, 6), data, randSched(r, l), ops))
+		emit(c19MkBinread(kind, nn, r.Chance(1, 4), r.Chance(1, 6), data, c19RandSched(r, l), ops))
 	}
 }
 
-func shrinkBinread(c Case) []Case {
-	kind, n, ewl, failing, data, sched, ops := parseBinread(c.Args)
+func c19ShrinkBinread(c Case) []Case {
+	kind, n, ewl, failing, data, sched, ops := c19ParseBinread(c.Args)
 	var out []Case
 	for i := 0; i+2 < len(ops); i += 3 {
 		no := append(append([]int64{}, ops[:i]...), ops[i+3:]...)
-		out = append(out, mkBinread(kind, n, ewl, failing, data, sched, no))
+		out = append(out, c19MkBinread(kind, n, ewl, failing, data, sched, no))
 	}
 	for i := range sched {
 		ns := append(append([]int{}, sched[:i]...), sched[i+1:]...)
-		out = append(out, mkBinread(kind, n, ewl, failing, data, ns, ops))
+		out = append(out, c19MkBinread(kind, n, ewl, failing, data, ns, ops))
 	}
-	if kind != bkFile {
+	if kind != c19BkFile {
 		for i := range data {
 			nd := append(append([]byte{}, data[:i]...), data[i+1:]...)
-			out = append(out, mkBinread(kind, n, ewl, failing, nd, sched, ops))
+			out = append(out, c19MkBinread(kind, n, ewl, failing, nd, sched, ops))
 		}
 	}
 	return out
 }
 
-var binreadModel = &Model{
+var c19BinreadModel = &Model{
 	Name:   "binread",
-	Gen:    genBinread,
-	Impl:   binreadImpl,
-	Shrink: shrinkBinread,
+	Gen:    c19GenBinread,
+	Impl:   c19BinreadImpl,
+	Shrink: c19ShrinkBinread,
 	Class: func(c Case, out []int64) string {
-		s := backendName(int(c.Args[0]), c.Args[1])
+		s := c19BackendName(int(c.Args[0]), c.Args[1])
 		switch {
 		case len(out) > 0 && out[len(out)-1] == -1:
 			s += "/panic"
@@ -842,7 +897,7 @@ var binreadModel = &Model{
 
 // ---- writer model ----------------------------------------------------------------------------------
 
-func tvalArgs(v tval) []int64 {
+func c19TvalArgs(v c19Tval) []int64 {
 	switch {
 	case v.typ == 10:
 		return append([]int64{10}, bytesToArgs(v.b)...)
@@ -856,7 +911,7 @@ func tvalArgs(v tval) []int64 {
 	return []int64{int64(v.typ), v.i, 0}
 }
 
-func binwriteImpl(c Case) []int64 {
+func c19BinwriteImpl(c Case) []int64 {
 	iv, ops := takeList(c.Args)
 	var w *parse.BinaryWriter
 	if len(iv) == 0 {
@@ -885,7 +940,7 @@ func binwriteImpl(c Case) []int64 {
 				}
 			} else {
 				k, e := w.Write(b)
-				out = append(out, int64(k), binErrKind(e))
+				out = append(out, int64(k), c19BinErrKind(e))
 			}
 			i += 2 + n
 		case code == 12:
@@ -931,10 +986,10 @@ func binwriteImpl(c Case) []int64 {
 		}
 	}
 	out = append(out, -2, w.Len())
-	return append(out, bytesObs(w.Bytes())...)
+	return append(out, c19BytesObs(w.Bytes())...)
 }
 
-func genBinwrite(r *Rng, tier string, emit func(Case)) {
+func c19GenBinwrite(r *Rng, tier string, emit func(Case)) {
 	mk := func(init []byte, ops []int64, note string) {
 		args := append(bytesToArgs(init), ops...)
 		emit(Case{Fn: "binwrite", Args: args, Note: note})
@@ -953,12 +1008,12 @@ func genBinwrite(r *Rng, tier string, emit func(Case)) {
 			if w < 64 {
 				x &= (1 << w) - 1
 			}
-			v := tval{typ: t, u: x}
+			v := c19Tval{typ: t, u: x}
 			if t >= 5 {
 				v.i = int64(x<<(64-w)) >> (64 - w)
 			}
 			for o := int64(0); o < 2; o++ {
-				mk(nil, append([]int64{12, o}, tvalArgs(v)...), fmt.Sprintf("type %d value %#x order %d", t, x, o))
+				mk(nil, append([]int64{12, o}, c19TvalArgs(v)...), fmt.Sprintf("type %d value %#x order %d", t, x, o))
 			}
 		}
 	}
@@ -987,23 +1042,23 @@ func genBinwrite(r *Rng, tier string, emit func(Case)) {
 				ops = append(ops, 11)
 				ops = append(ops, bytesToArgs(b)...)
 			default:
-				v := randTval(r)
+				v := c19RandTval(r)
 				if (v.typ == 2 || v.typ == 7) && r.Chance(1, 3) {
 					// a uint32/int32 that does not fit 24 bits is truncated by WriteUint24
 					x := uint32(r.U64())
 					v.u, v.i = uint64(x), int64(int32(x))
 				}
-				ops = append(ops, tvalArgs(v)...)
+				ops = append(ops, c19TvalArgs(v)...)
 			}
 		}
 		mk(init, ops, "")
 	}
 }
 
-var binwriteModel = &Model{
+var c19BinwriteModel = &Model{
 	Name: "binwrite",
-	Gen:  genBinwrite,
-	Impl: binwriteImpl,
+	Gen:  c19GenBinwrite,
+	Impl: c19BinwriteImpl,
 	Class: func(c Case, out []int64) string {
 		return fmt.Sprintf("len<=%d", (len(out)/16+1)*16)
 	},
@@ -1011,16 +1066,16 @@ var binwriteModel = &Model{
 
 // ---- bitmap models ---------------------------------------------------------------------------------
 
-func encBitReads(r *parse.BitmapReader, k int) []int64 {
+func c19EncBitReads(r *parse.BitmapReader, k int) []int64 {
 	var out []int64
 	for i := 0; i < k; i++ {
 		bit := r.Read()
-		out = append(out, b2i(bit), int64(r.Pos()), b2i(r.EOF()))
+		out = append(out, c19B2i(bit), int64(r.Pos()), c19B2i(r.EOF()))
 	}
 	return out
 }
 
-func bitreadImpl(c Case) (out []int64) {
+func c19BitreadImpl(c Case) (out []int64) {
 	k := int(c.Args[0])
 	bv, _ := takeList(c.Args[1:])
 	defer func() {
@@ -1028,10 +1083,10 @@ func bitreadImpl(c Case) (out []int64) {
 			out = []int64{-1}
 		}
 	}()
-	return encBitReads(parse.NewBitmapReader(toBytes(bv)), k)
+	return c19EncBitReads(parse.NewBitmapReader(toBytes(bv)), k)
 }
 
-func bitwriteImpl(c Case) (out []int64) {
+func c19BitwriteImpl(c Case) (out []int64) {
 	k := int(c.Args[0])
 	iv, bits := takeList(c.Args[1:])
 	defer func() {
@@ -1048,12 +1103,12 @@ func bitwriteImpl(c Case) (out []int64) {
 	for _, b := range bits {
 		w.Write(b != 0)
 	}
-	out = append([]int64{w.Len()}, bytesObs(w.Bytes())...)
+	out = append([]int64{w.Len()}, c19BytesObs(w.Bytes())...)
 	out = append(out, -2)
-	return append(out, encBitReads(parse.NewBitmapReader(w.Bytes()), k)...)
+	return append(out, c19EncBitReads(parse.NewBitmapReader(w.Bytes()), k)...)
 }
 
-func genBitread(r *Rng, tier string, emit func(Case)) {
+func c19GenBitread(r *Rng, tier string, emit func(Case)) {
 	alpha := []byte{0x00, 0xFF, 0xA5, 0x01, 0x80}
 	allStrings(alpha, 3, func(b []byte) {
 		emit(Case{Fn: "bitread", Args: append([]int64{int64(8*len(b) + 3)}, bytesToArgs(b)...), Note: fmt.Sprintf("buf=%x", b)})
@@ -1072,7 +1127,7 @@ func genBitread(r *Rng, tier string, emit func(Case)) {
 	}
 }
 
-func genBitwrite(r *Rng, tier string, emit func(Case)) {
+func c19GenBitwrite(r *Rng, tier string, emit func(Case)) {
 	mk := func(k int, init []byte, bits []int64) {
 		args := append([]int64{int64(k)}, bytesToArgs(init)...)
 		args = append(args, bits...)
@@ -1112,9 +1167,9 @@ func genBitwrite(r *Rng, tier string, emit func(Case)) {
 	}
 }
 
-var bitreadModel = &Model{Name: "bitread", Gen: genBitread, Impl: bitreadImpl,
+var c19BitreadModel = &Model{Name: "bitread", Gen: c19GenBitread, Impl: c19BitreadImpl,
 	Class: func(c Case, out []int64) string { return fmt.Sprintf("len=%d", c.Args[1]) }}
-var bitwriteModel = &Model{Name: "bitwrite", Gen: genBitwrite, Impl: bitwriteImpl,
+var c19BitwriteModel = &Model{Name: "bitwrite", Gen: c19GenBitwrite, Impl: c19BitwriteImpl,
 	Class: func(c Case, out []int64) string {
 		iv, bits := takeList(c.Args[1:])
 		return fmt.Sprintf("init=%d/bits<=%d", len(iv), (len(bits)/8+1)*8)
@@ -1122,7 +1177,7 @@ var bitwriteModel = &Model{Name: "bitwrite", Gen: genBitwrite, Impl: bitwriteImp
 
 func init() {
 	props["C19"] = &PropSpec{
-		Models:  []*Model{binreadModel, binwriteModel, bitreadModel, bitwriteModel},
+		Models:  []*Model{c19BinreadModel, c19BinwriteModel, c19BitreadModel, c19BitwriteModel},
 		Oracles: []*Oracle{{Name: "c19-property", Run: c19Oracle}},
 	}
 }
